@@ -211,7 +211,15 @@ class SmiV2Lexer(AbstractLexer):
 
     def t_NUMBER(self, t):
         r'-?[0-9]+'
-        t.value = int(t.value)
+        # more than 20 significant digits can not fit into 64 bits; checking
+        # that up front also keeps int() below the interpreter's own limit
+        # on decimal conversion (it raises ValueError past it)
+        digits = t.value.lstrip('-').lstrip('0')
+        if len(digits) > 20:
+            shown = len(t.value) > 32 and t.value[:32] + '...' or t.value
+            raise error.PySmiLexerError("Number %s is too big" % shown, lineno=t.lineno)
+
+        t.value = int((t.value[0] == '-' and '-' or '') + (digits or '0'))
         neg = 0
         if t.value < 0:
             neg = 1
